@@ -18,7 +18,7 @@ type diffsObs struct {
 
 func runC19(cfg *vh.Config) error {
 	res := vh.NewResult("C19", cfg.Seed)
-	res.Rule = "inputs: formatter templates (trailing comments, several statements per line, multi-line tokens, leading/trailing blank lines, whitespace-only gaps), the repository's .j5s/.bcl/fixture files, grammar-generated files (1/5 mutated), windows of repository files (1/3 mutated), random <=3-token sequences, a pinned byte-level corpus (valid multi-byte characters, Unicode spaces, every kind of invalid UTF-8 in every literal kind), pinned templates (two fragments sharing a line where the second runs on, a multi-line block comment as the last fragment, empty arrays, runs of empty description lines); the run also counts whether FmtDiffs of the formatter's own output is empty; non-trivial = distinct input the formatter accepts with at least one statement"
+	res.Rule = "inputs: formatter templates (trailing comments, several statements per line, multi-line tokens, leading/trailing blank lines, whitespace-only gaps), the repository's .j5s/.bcl/fixture files, grammar-generated files (1/5 mutated), windows of repository files (1/3 mutated), random <=3-token sequences, a pinned byte-level corpus (valid multi-byte characters, Unicode spaces, every kind of invalid UTF-8 in every literal kind), pinned templates (two fragments sharing a line where the second runs on, a multi-line block comment as the last fragment, empty arrays, runs of empty description lines); the run also counts whether FmtDiffs of the formatter's own output is empty and emits up to 220 distinct formatted texts as Coq cases (stream formatted: same edit list from the model, and the hypothesis extent_ok of C19_formatted_no_edits_partial evaluated on the text); non-trivial = distinct input the formatter accepts with at least one statement"
 	cf := &vh.CasesFile{
 		Header: "From Coq Require Import String List NArith ZArith.\nFrom J5V.model Require Import BclFmtCorr.",
 		Type:   "fmtcase",
@@ -27,9 +27,15 @@ func runC19(cfg *vh.Config) error {
 	distinct := vh.Distinct{}
 	caseNo := 0
 	inputs := fmtInputs(cfg, "c19", cfg.Scale(750, 25000), cfg.Scale(400, 12000), cfg.Scale(250, 8000))
+	// stream `formatted`: FmtDiffs on texts the real formatter returned, as Coq cases (CFormatted): the model must give
+	// the same edit list and the hypothesis extent_ok of C19_formatted_no_edits_partial must hold for the text
+	formattedSeen := map[string]bool{}
+	formattedBudget := cfg.Scale(220, 6000)
 	for _, in := range inputs {
 		src := in.src
 		inS := fmt.Sprintf("%q", src)
+		var formattedEdits []bcl.FmtDiff
+		formattedOK := false
 		fg := guard(5*time.Second, func() diffsObs { o, err := bcl.Fmt(src); return diffsObs{[]bcl.FmtDiff{{NewText: o}}, err} })
 		dg := guard(5*time.Second, func() diffsObs { e, err := bcl.FmtDiffs(src); return diffsObs{e, err} })
 		res.Count("input_" + in.stream)
@@ -99,6 +105,7 @@ func runC19(cfg *vh.Config) error {
 				// the editor reaches a fixed point after one format: the formatted text has no edits left
 				// (follows from C19 + C09 only up to no-op edits; observed, reported, not decisive)
 				if sg := guard(5*time.Second, func() diffsObs { e, err := bcl.FmtDiffs(fmtOut); return diffsObs{e, err} }); sg.Panic == nil && !sg.Timeout && sg.Val.err == nil {
+					formattedOK, formattedEdits = true, sg.Val.edits
 					if len(sg.Val.edits) == 0 {
 						res.Count("second_format_no_edits")
 					} else {
@@ -129,6 +136,12 @@ func runC19(cfg *vh.Config) error {
 			res.Cases = append(res.Cases, vh.CaseRec{Case: caseNo, Stream: in.stream, Input: inS, Impl: map[string]any{"kind": kind, "edits": fmt.Sprint(edits)}})
 			if fmtOK && len(src) < 60 && len(edits) > 0 {
 				res.Sample(map[string]any{"input": src, "edits": fmt.Sprint(edits)}, 8)
+			}
+			if formattedOK && strings.TrimSpace(fmtOut) != "" && !formattedSeen[fmtOut] && len(formattedSeen) < formattedBudget && len(fmtOut) < 4000 {
+				formattedSeen[fmtOut] = true
+				res.Count("formatted_cases")
+				cf.Terms = append(cf.Terms, fmt.Sprintf("CFormatted %s %s", vh.BytesTerm(fmtOut), editsTerm(formattedEdits)))
+				res.Cases = append(res.Cases, vh.CaseRec{Case: caseNo, Stream: "formatted", Input: fmt.Sprintf("%q", fmtOut), Impl: map[string]any{"edits": fmt.Sprint(formattedEdits)}})
 			}
 		}
 		caseNo++
